@@ -103,8 +103,25 @@ def _op_block(sizes, newsizes, ndim, doms, dks, hows, offsets='all', wopts=(None
     for shape in itertools.product(sizes, repeat=ndim):
         for newshp in itertools.product(newsizes, repeat=ndim):
             offs = [None]
+            extra = []      # explicit offsets that are non-zero on an axis of unchanged size
             if offsets == 'all':
-                offs += [list(o) for o in R.all_offsets(shape, newshp)]
+                base_offs = [list(o) for o in R.all_offsets(shape, newshp)]
+                offs += base_offs
+                same = [i for i in range(ndim) if shape[i] == newshp[i]]
+                if same:
+                    # docs: "offset : int or sequence of ints ... Number of cells to add
+                    # to/remove from the left" -- an axis that keeps its size has nothing
+                    # added or removed, whatever entry the offset carries there (one integer
+                    # for all axes is a documented form); the range must keep the domain's
+                    # extent in that axis
+                    for o in base_offs:
+                        for u in (1, 2):
+                            extra.append(([u if i in same else o[i] for i in range(ndim)],
+                                          'sequence'))
+                    if ndim > 1:
+                        for k in (1, 2):
+                            if all(k <= abs(m - n) for n, m in zip(shape, newshp) if n != m):
+                                extra.append(([k] * ndim, 'scalar'))
             for dom in doms:
                 dnob = _nobs(ndim, dom['nob'])
                 if any(n == 1 and (l or r) for n, (l, r) in zip(shape, dnob)):
@@ -134,6 +151,14 @@ def _op_block(sizes, newsizes, ndim, doms, dks, hows, offsets='all', wopts=(None
                                 cfgs.append({'kind': 'op', 'shape': list(shape),
                                              'newshp': list(newshp), 'dom': dom, 'how': how,
                                              'dk_nob': dk, 'offset': off, 'w': w})
+                        if how == 'ran_shp':
+                            for off, form in extra:
+                                c = {'kind': 'op', 'shape': list(shape),
+                                     'newshp': list(newshp), 'dom': dom, 'how': how,
+                                     'dk_nob': dk, 'offset': off, 'w': None}
+                                if form == 'scalar':
+                                    c['offset_form'] = 'scalar'
+                                cfgs.append(c)
     cfgs.sort(key=lambda c: (sum(c['shape']) + sum(c['newshp'])))
     return cfgs
 
@@ -592,7 +617,9 @@ def _run_op(cfg):
     cplx = np.dtype(domspec['dtype']).kind == 'c'
     n_in, n_out = int(np.prod(shape)), int(np.prod(newshp))
     head0 = ('domain=%s how=%s ran_shp=%s offset=%s discr_kwargs nodes_on_bdry=%s weighting=%s'
-             % (_srepr(dom), how, list(newshp), cfg['offset'], dk_nob, cfg.get('w')))
+             % (_srepr(dom), how, list(newshp),
+                cfg['offset'][0] if cfg.get('offset_form') == 'scalar' else cfg['offset'],
+                dk_nob, cfg.get('w')))
 
     def make(mode, c):
         kw = {'pad_mode': mode}
@@ -615,7 +642,9 @@ def _run_op(cfg):
             if dk:
                 kw['discr_kwargs'] = dk
             if cfg['offset'] is not None:
-                kw['offset'] = list(cfg['offset']) if ndim > 1 else cfg['offset'][0]
+                kw['offset'] = (list(cfg['offset'])
+                                if ndim > 1 and cfg.get('offset_form') != 'scalar'
+                                else cfg['offset'][0])
             return odl.ResizingOperator(dom, ran_shp=newshp, **kw)
         off = cands[0]
         los, his = [], []
@@ -1031,8 +1060,12 @@ def meta(tier):
                         'weighting inherited / 3.0), 2-d {2,3}^2 -> {1..4}^2'),
         },
         'assumptions': [
-            'offsets outside [0, |new - old|] (block not inside the larger array) and a non-zero '
-            'offset in an axis of unchanged size are not documented and not enumerated',
+            'offsets outside [0, |new - old|] (block not inside the larger array) are not '
+            'documented and not enumerated; for resize_array the same holds for a non-zero offset '
+            'in an axis of unchanged size. For ResizingOperator(ran_shp=, offset=) non-zero '
+            'entries (1, 2; per axis or one integer for all axes) on axes of unchanged size ARE '
+            'enumerated: nothing is added or removed there, so the range must keep the '
+            'domain\'s grid and extent in that axis and op.offset must be 0 there',
             'a non-integer pad_const for integer data and a non-zero pad_const in the adjoint '
             'direction are unspecified (counted under unspecified_skipped, any clean outcome '
             'accepted)',
